@@ -44,6 +44,9 @@ type Node struct {
 	Close bool `json:"close,omitempty"`
 	// CErr: the cleanup of an unwind-protect signals an error after its marker
 	CErr bool `json:"cerr,omitempty"`
+	// HErr: the on-recover form of a recover signals an error of this kind
+	// itself (seeded change C07-n2: a second failure that loses its class)
+	HErr string `json:"herr,omitempty"`
 	// NilVal: a ret leaf returns nil instead of 7 ((return) / (return-from b nil))
 	NilVal bool `json:"nil_val,omitempty"`
 	// Sym: the tags of this tagbody / loop body are symbols, not integers
@@ -345,7 +348,11 @@ func (g *genCtx) node(depth int) Node {
 	case x < 67:
 		return Node{K: "ignore", ID: id, Kids: g.kids(depth-1, 2)}
 	case x < 71:
-		return Node{K: "recover", ID: id, Kids: g.kids(depth-1, 2)}
+		n := Node{K: "recover", ID: id, Kids: g.kids(depth-1, 2)}
+		if g.r.Pct(20) {
+			n.HErr = errLeaves[g.r.Intn(len(errLeaves))]
+		}
+		return n
 	default:
 		if g.inSend == 0 && g.r.Pct(8) {
 			// a function body: nothing outside of it is a target
@@ -377,8 +384,16 @@ func (g *genCtx) node(depth int) Node {
 					// one more kid as the result form of the loop (inside the
 					// nil block, outside the body)
 					n.ResKid = true
-					n.Kids = append(n.Kids, g.node(depth-1))
 					n.Zero = g.r.Pct(35) // seeded change C07-l2: a shortcut for loops that do not iterate
+					if n.Zero && g.r.Pct(50) {
+						// the result form of a loop that does not iterate leaves
+						// the nil block itself (kept frequent: eleven loop kinds
+						// share the cases)
+						g.nextID++
+						n.Kids = append(n.Kids, Node{K: "ret", ID: g.nextID, Name: "nil", NilVal: g.r.Pct(25)})
+					} else {
+						n.Kids = append(n.Kids, g.node(depth-1))
+					}
 				}
 			}
 			g.blocks = g.blocks[:len(g.blocks)-1]
@@ -675,6 +690,10 @@ func (n *Node) render(dir string, b *strings.Builder) {
 	case "ignore":
 		fmt.Fprintf(b, "(ignore-errors %s)", all())
 	case "recover":
+		if n.HErr != "" {
+			fmt.Fprintf(b, "(recover rec%d (progn (sim-emit \"recovered\" %d) (sim-emit \"signal\" \"%s\") %s) %s)", n.ID, n.ID, n.HErr, errForm(n.HErr), all())
+			break
+		}
 		fmt.Fprintf(b, "(recover rec%d (sim-emit \"recovered\" %d) %s)", n.ID, n.ID, all())
 	case "uwp":
 		cerr := ""
@@ -1464,6 +1483,11 @@ func (e *engine) Shrink(raw json.RawMessage) (out []json.RawMessage) {
 		if n.CErr {
 			nn := cloneNode(*n)
 			nn.CErr = false
+			emit(replace(path, nn))
+		}
+		if n.HErr != "" {
+			nn := cloneNode(*n)
+			nn.HErr = ""
 			emit(replace(path, nn))
 		}
 		for i := range n.Kids {
